@@ -1,7 +1,8 @@
 (* Driver for the extracted C10 model: one case per stdin line, one result per
    stdout line.  Bytes are hex ("-" = empty).
      DEC <hexdoc>      -> cue=<canon|REJECT> spec=<canon|REJECT> cls=<strict><cuemode><dup><range>|- re=<hex|->
-     ENC <hexdoc> ..   -> spec=<canon|REJECT> cue=<canon|REJECT>   (model readings of bytes the implementation marshalled)
+     ENC <hexdoc> ..   -> spec=<canon|REJECT> cue=<canon|REJECT> re=<hex>  (model readings of bytes the implementation marshalled;
+                          re = the model printer on the model reading)
      STR <hexlit>      -> cue=<ok:hex|err|panic|other> json=<ok:hex|err>
      NUM <hextext>     -> <ok:base:isint:num|err|other> rd=<isint:num|none>
      FMT <0|1> <coeffdigits> <exp>  -> <hex>
@@ -96,7 +97,8 @@ let handle line =
     Printf.sprintf "cue=%s spec=%s cls=%s re=%s" cue spec cls re
   | "ENC" :: h :: _ ->
     let doc = bytes_of_string (unhex h) in
-    Printf.sprintf "spec=%s cue=%s" (canon_opt (c10_spec_decode doc)) (canon_opt (c10_cue_decode doc))
+    let re = match c10_reprint doc with None -> "-" | Some p -> hex (string_of_bytes p) in
+    Printf.sprintf "spec=%s cue=%s re=%s" (canon_opt (c10_spec_decode doc)) (canon_opt (c10_cue_decode doc)) re
   | "STR" :: h :: _ ->
     let t = bytes_of_string (unhex h) in
     let cue = match c10_unquote t with
